@@ -6,7 +6,7 @@ import json, os, re
 from collections import Counter
 
 PKG = "http/tokenV2"
-HARNESS = ["http/tokenV2/zz_verif_c17_test.go"]
+HARNESS = ["http/tokenV2/zz_verif_c17_test.go", "http/tokenV2/zz_verif_export.go"]
 
 # classes of the generator for which NOTHING made a valid signature over the exact bytes, whatever the consumer
 NOBODY_SIGNED = {"alg-none": "alg none / missing", "alg-hmac": "MAC keyed with public material", "alg-mismatch": "declared algorithm does not fit the signature",
